@@ -131,7 +131,7 @@ def run_case(case):
         fastparquet.write(path, df0, **base_kw)
         before_tab = fastparquet.ParquetFile(path).to_pandas(index=False)
         before_files = fsmon.snapshot(path)
-        ctx = {k: case[k] for k in ("kind", "pos", "rgpos", "state", "nrg", "mode")}
+        ctx = {("rejection" if k == "kind" else k): case[k] for k in ("kind", "pos", "rgpos", "state", "nrg", "mode")}
         kind = case["kind"]
         new = base_frame(rng, n, n, part)
         raised = None
@@ -183,7 +183,7 @@ def run_case(case):
                                     **ctx, **C.exc_shape(e)})
             res["outcome"] = "ok"
             res["nontrivial"] = True
-            res["features"] = [ctx[k] for k in ("kind", "pos", "rgpos", "state", "nrg", "mode")]
+            res["features"] = [ctx[k] for k in ("rejection", "pos", "rgpos", "state", "nrg", "mode")]
             return res
         if not returned:
             fl = T.same_table(before_tab, after_tab, check_index=False, cat_strict=False) if list(before_tab.columns) == list(after_tab.columns) \
@@ -209,7 +209,7 @@ def run_case(case):
                 res["failures"].append({"kind": "old_rows_lost_after_accepted_op", "expected": len(before_tab), "got": len(old), **ctx})
         res["outcome"] = "ok"
         res["nontrivial"] = not returned
-        res["features"] = [ctx[k] for k in ("kind", "pos", "rgpos", "state", "nrg", "mode")]
+        res["features"] = [ctx[k] for k in ("rejection", "pos", "rgpos", "state", "nrg", "mode")]
         res["sample"] = {"case": {k: case[k] for k in ("kind", "pos", "rgpos", "state", "nrg", "mode")}, "raised": type(raised).__name__ if raised else None,
                          "opened_for_writing": opened_w[:4]}
         return res
